@@ -592,7 +592,7 @@ LEVEL_TEXT = ("Partial. For every sentence of the modelled fragment (values of C
               "C11_simulation_partial, C11_ws_invariant_partial, C11_reprint_partial). Alternative numeric spellings, comments, "
               "identifiers, colours/MIDI/BLOB are in the model and compared with the implementation; NxA, ranges and arrays are "
               "now in the model and compared with the implementation; NxV repetitions are in the theorems (C11_elements_agree_partial); "
-              "the widened grammar (Grammar.v gtok/gword: suffix i, hexadecimal literals plain and with i/h, comments between words) "
+              "the widened grammar (Grammar.v gtok/gword: suffix i, hexadecimal literals plain and with i/h, decimal floats without exact value plain and with f/d, comments between words) "
               "is accepted by both recognisers and scanned to its denotation (C11_grammar_agree_denotes_partial, "
               "C11_grammar_simulation_partial, C11_grammar_ws_invariant_partial); "
               "sentences of items and arrays of items without a range tail directly after an array: C10_mixed_reads_partial.")
